@@ -47,13 +47,81 @@ private theorem seq_allEqPairs_self : ∀ (xs : List (PyVal × PyVal)),
 theorem update_nil (x : Index) (E : Externals) (now : Int) : x.update E now [] = (x, .none) := by
   rfl
 
-theorem update_cons (x : Index) (E : Externals) (now : Int) (k v : PyVal) (kvs : List (PyVal × PyVal)) :
-    x.update E now ((k, v) :: kvs) = (x.setitem E now k v).1.update E now kvs := by
-  rfl
+/- STATEMENT BEFORE THE FIX OF `Index.update` (MutableMapping.update stops at the first assignment
+that raises) — now false when the first assignment raises:
 
-theorem update_append (x : Index) (E : Externals) (now : Int) (a b : List (PyVal × PyVal)) :
+theorem update_cons : x.update E now ((k, v) :: kvs) = (x.setitem E now k v).1.update E now kvs
+theorem update_append : x.update E now (a ++ b) = (x.update E now a).1.update E now b
+
+restated for the success case (`update_cons_ok`, `update_append_ok`), with the failing-case
+counterparts `update_stops_at_error` and `update_append_error`. -/
+
+/-- the old `update_cons` is false: when the first assignment raises, `update` returns the exception,
+while continuing with the remaining pairs (here: none) would return `None` -/
+theorem update_cons_needs_ok :
+    let x : Index := { cache := { cfg := { policy := .none } } }
+    (x.update Cache.exE 0 [(.str [97], .str [0xD800])]).2.isExc = true ∧
+    ((x.setitem Cache.exE 0 (.str [97]) (.str [0xD800])).1.update Cache.exE 0 []).2.isExc = false := by
+  decide +kernel
+
+/-- `update` is one assignment per pair, left to right, as long as they succeed -/
+theorem update_cons_ok (x : Index) (E : Externals) (now : Int) (k v : PyVal) (kvs : List (PyVal × PyVal))
+    (hok : (x.setitem E now k v).2.isExc = false) :
+    x.update E now ((k, v) :: kvs) = (x.setitem E now k v).1.update E now kvs := by
+  rw [update]
+  cases h : x.setitem E now k v with
+  | mk x1 o =>
+    rw [h] at hok
+    cases o <;> first | rfl | cases hok
+
+/-- an assignment that raises ends `update`: the pairs before it stay assigned, the exception
+propagates, the remaining pairs are not looked at -/
+theorem update_stops_at_error (x : Index) (E : Externals) (now : Int) (k v : PyVal)
+    (kvs : List (PyVal × PyVal)) (e : String) (herr : (x.setitem E now k v).2 = .exc e) :
+    x.update E now ((k, v) :: kvs) = ((x.setitem E now k v).1, .exc e) := by
+  rw [update]
+  cases h : x.setitem E now k v with
+  | mk x1 o =>
+    rw [h] at herr
+    simp only at herr
+    subst herr
+    rfl
+
+theorem update_append_ok (x : Index) (E : Externals) (now : Int) (a b : List (PyVal × PyVal))
+    (hok : (x.update E now a).2.isExc = false) :
     x.update E now (a ++ b) = (x.update E now a).1.update E now b := by
-  simp only [update, List.foldl_append]
+  induction a generalizing x with
+  | nil => rfl
+  | cons kv a ih =>
+    obtain ⟨k, v⟩ := kv
+    cases hs : (x.setitem E now k v).2.isExc with
+    | false =>
+      rw [List.cons_append, update_cons_ok x E now k v _ hs]
+      rw [update_cons_ok x E now k v _ hs] at hok ⊢
+      exact ih _ hok
+    | true =>
+      cases ho : (x.setitem E now k v).2 <;> rw [ho] at hs <;> try cases hs
+      rename_i e
+      rw [update_stops_at_error x E now k v a e ho] at hok
+      cases hok
+
+theorem update_append_error (x : Index) (E : Externals) (now : Int) (a b : List (PyVal × PyVal))
+    (herr : (x.update E now a).2.isExc = true) :
+    x.update E now (a ++ b) = x.update E now a := by
+  induction a generalizing x with
+  | nil => cases herr
+  | cons kv a ih =>
+    obtain ⟨k, v⟩ := kv
+    cases hs : (x.setitem E now k v).2.isExc with
+    | false =>
+      rw [List.cons_append, update_cons_ok x E now k v _ hs]
+      rw [update_cons_ok x E now k v _ hs] at herr ⊢
+      exact ih _ herr
+    | true =>
+      cases ho : (x.setitem E now k v).2 <;> rw [ho] at hs <;> try cases hs
+      rename_i e
+      rw [List.cons_append, update_stops_at_error x E now k v _ e ho,
+        update_stops_at_error x E now k v a e ho]
 
 /-- different lengths are never equal, whatever the contents -/
 theorem eqTo_len (x : Index) (E : Externals) (now : Int) (ordered : Bool) (other : List (PyVal × PyVal))
